@@ -33,5 +33,9 @@ def run(ctx):
     ctx.rule("the same calls on aligned_highp / aligned_mediump / aligned_lowp in intrinsic builds (SSE2; SSE4.1 and AVX2+FMA thorough): GLM's SIMD kernels on the "
              "vector side against the scalar overloads; there lowp float division / sqrt / inversesqrt are hardware approximations (2^-8 on moderate operands), "
              "functions GLM derives from them are unconstrained for lowp, min / max / clamp on NaN operands are outside the domain and zero signs are free", exhaustive=False)
+    # stage X01 (notes/X01-notes.md): the component-wise reductions and helpers around the lifted functions - gtx/component_wise, gtx/common,
+    # gtx/hash, gtx/scalar_multiplication, gtx/range, typedef tables, exterior / mixed product, triangle normal - specified in GlmX01.tla
+    from props import x01
+    x01.run(ctx)
     ctx.assumptions += ["components that see a signalling NaN are outside the domain of the fmin/fmax/fclamp families",
                         "the scalar side is the scalar overload evaluated by the same build (relational property)"]
